@@ -22,6 +22,9 @@ pub struct Case {
     pub factor_bits: u64,
     /// selection / permutation choices for the combine part
     pub picks: Vec<u16>,
+    /// hand-made ingredients (built through the verification hook): (name, kind, a, b, unit)
+    #[serde(default)]
+    pub extra: Vec<(u8, u8, u16, u16, u8)>,
 }
 
 fn fvalue(v: &CoreValue) -> FValue {
@@ -224,8 +227,27 @@ fn check(c: &Case, st: &mut Stats) -> Verdict {
                 all_q.push((i.name.clone(), q));
             }
             all.extend(igrs);
+            // the same source again with other factors: every call mirrors its own scaling
+            for f2 in [factor * 2.0, factor] {
+                check_mirror(&src, f2, &mut Stats::default())?;
+            }
         }
         srcs.push(src);
+    }
+    for (n, kind, a, b, u) in &c.extra {
+        let name = ["salt", "flour", "Öl"][*n as usize % 3].to_string();
+        let unit = [None, Some("g"), Some("cans"), Some("l")][*u as usize % 4].map(String::from);
+        let (av, bv) = (*a as f64 / 8.0, *a as f64 / 8.0 + *b as f64 / 8.0);
+        let q: Option<(CoreValue, Option<String>)> = match kind % 4 {
+            0 => Some((CoreValue::Number(cooklang::quantity::Number::Regular(av)), unit.clone())),
+            1 => Some((CoreValue::Range { start: cooklang::quantity::Number::Regular(av), end: cooklang::quantity::Number::Regular(bv) }, unit.clone())),
+            2 => Some((CoreValue::Text(["some", "a pinch"][*a as usize % 2].to_string()), unit.clone())),
+            _ => None,
+        };
+        let amount = q.as_ref().map(|(v, u)| Amount::verif_new(fvalue(v), u.clone()));
+        all.push(FIngredient { name: name.clone(), amount, descriptor: None });
+        all_q.push((name, q));
+        st.class("hand-made ingredient");
     }
     st.sample(|| json!({"factor": factor, "sources": srcs}));
     if all.is_empty() {
@@ -282,10 +304,15 @@ pub fn run(tier: Tier) -> i32 {
         run_prop(
             &mut run,
             "mirror-and-combine",
-            "1-3 generated Core recipes (names colliding across recipes, all value kinds, units, notes, cookware, timers, sections, text paragraphs, `>>` / front-matter metadata) and a scaling factor: parse_recipe(src, f) is compared item by item with canonical().parse(src).scale(f); deref_* of every item; section ref lists = concatenation of step lists; then the ingredient lists are concatenated, permuted and sub-selected and combine_ingredients / combine_ingredients_selected are compared with a per (name, unit, kind) model; non-trivial = at least one ingredient",
+            "(needs the Amount constructor hook) 1-3 generated Core recipes (names colliding across recipes, all value kinds, units, notes, cookware, timers, sections, text paragraphs, `>>` / front-matter metadata) and a scaling factor: parse_recipe(src, f) is compared item by item with canonical().parse(src).scale(f); deref_* of every item; section ref lists = concatenation of step lists; every source is parsed again with other factors (per-call independence); then the ingredient lists plus 0-5 hand-made ingredients (numbers, ranges, texts, no amount; same names/units so that entries merge) are concatenated, permuted and sub-selected and combine_ingredients / combine_ingredients_selected are compared with a per (name, unit, kind) model; non-trivial = at least one ingredient",
             || {
-                (proptest::collection::vec(raw_recipe(Some(false)), 1..=3), prop_oneof![Just(1.0f64), (0.1f64..10.0), Just(2.0)], proptest::collection::vec(any::<u16>(), 0..8))
-                    .prop_map(|(raws, f, picks)| Case { raws, factor_bits: f.to_bits(), picks })
+                (
+                    proptest::collection::vec(raw_recipe(Some(false)), 1..=3),
+                    prop_oneof![Just(1.0f64), (0.1f64..10.0), Just(2.0)],
+                    proptest::collection::vec(any::<u16>(), 0..8),
+                    proptest::collection::vec((0u8..3, 0u8..4, 0u16..400, 0u16..100, 0u8..4), 0..6),
+                )
+                    .prop_map(|(raws, f, picks, extra)| Case { raws, factor_bits: f.to_bits(), picks, extra })
             },
             tier.pick(20_000, 2_000_000),
             check,
